@@ -14,7 +14,8 @@
    ([erasable]) are faces whose erased cells look like printed spaces. *)
 From Coq Require Import List NArith Bool Arith.
 From SNT Require Import Render.Cell Render.Screen Render.Frame Render.Domain Render.Spec
-  Render.GridLemmas Render.ExecProofs Render.Den Render.ShowProofs Render.HistoryProofs Render.Loop Render.LoopProofs Render.IdleProofs.
+  Render.GridLemmas Render.ExecProofs Render.Den Render.ShowProofs Render.HistoryProofs Render.ResumeProofs Render.Loop Render.LoopProofs
+  Render.IdleProofs.
 Import ListNotations.
 
 (* what [show] means, cell by cell: under an image a blank in the image's face, behind a wide
@@ -75,7 +76,7 @@ Theorem C01_history : forall o h w ops,
   spec_run o h w (blank_screen h w) (gmake h w cell_default) ops (rrun o (rnew h w false) ops) = true.
 Proof.
   intros o h w ops Hsp Hgood.
-  exact (history_spec_run o ops h w (rnew h w false) (blank_screen h w) Hsp (hinv_init o h w false Hsp) Hgood).
+  exact (history_spec_run o ops h w (rnew h w false) (blank_screen h w) Hsp (hinv_init o h w false [] Hsp) Hgood).
 Qed.
 
 (* the same, in the form of the property text: a history that ends in a frame of S *)
@@ -86,6 +87,22 @@ Theorem C01_history_final : forall o h w ops s,
                (show o (fst (size_after h w ops)) (snd (size_after h w ops)) s) = true.
 Proof. exact history_final. Qed.
 
+(* THE KNOWN CLASSES CUT TO THEIR EXTENT (Render/Spec.v resume_run): every history whose surfaces are in
+   the domain - images may share cells with images and wide characters - is judged.  Only the Frame of
+   a surface with such a shared cell suspends judging, and only until the next forced repaint (Clear,
+   Renew, Resize): from there on every frame again displays show(S) - same cells, no protocol error,
+   all placements of S - and the terminal places nothing besides S's images and those that were still
+   placed right after that clear() (what the overlap left behind; usually nothing).  Before the first
+   such frame the judgement is [same_display], as in C01_history. *)
+Theorem C01_history_resumes : forall o h w ops,
+  oracle_ok o -> dom_ops o h w ops ->
+  resume_run o h w (blank_screen h w) (gmake h w cell_default) (Some []) ops (rrun o (rnew h w false) ops) = true.
+Proof.
+  intros o h w ops Hok Hdom.
+  apply (history_resume_run o ops h w (rnew h w false) (blank_screen h w) (Some []) Hok); auto.
+  split; [exact (hinv_init o h w false [] Hok)|]. apply front_ok_blank; [apply Hok|reflexivity].
+Qed.
+
 (* the first frame of a fresh renderer (either value of `clear`) on a blank terminal *)
 Theorem C01_scratch : forall o h w b s,
   oracle_ok o -> good_surface o h w s ->
@@ -93,7 +110,7 @@ Theorem C01_scratch : forall o h w b s,
                (show o h w s) = true.
 Proof.
   intros o h w b s Hsp Hs.
-  destruct (hinv_draw o h w (rnew h w b) (blank_screen h w) s (hinv_init o h w b Hsp) Hs) as [HI Hf].
+  destruct (hinv_draw o h w (rnew h w b) (blank_screen h w) [] s (hinv_init o h w b [] Hsp) Hs) as [HI Hf].
   pose proof (frame_shows o h w _ _ Hsp HI) as H. rewrite Hf in H. exact H.
 Qed.
 
@@ -130,22 +147,36 @@ Proof. exact idle_frame. Qed.
    iteration poll; then - when frames_pending() exceeds TERMINAL_FRAMES_DROP (regenerated from the
    source) - frames_drop(); clear(); only then the handler draws; then frame() (or nothing for
    WaitNoFrame).  Because the clear() precedes the drawing, the forced repaint shows the surface the
-   handler drew for that iteration.  The terminal executes only what is delivered: every chunk (the commands between two polls) whole or not at all, a drop keeps a
-   prefix of the pending chunks (interface proved for the real queue by C16_frames,
-   C16_frames_flush_delimited, C16_render_loop_schema).  For every session - what is drawn, how many
+   handler drew for that iteration.  The terminal executes only what is delivered: every chunk (the
+   commands between two polls) whole or not at all, a drop keeps a prefix of the pending chunks (interface proved for the real queue by C16_frames,
+   C16_frames_flush_delimited, C16_render_loop_schema).
+   For every session - what is drawn, how many
    chunks the tty takes at each poll, what frames_pending() answers, how many pending chunks survive
    each drop - after EVERY delivered frame the terminal displays show(S) of the surface drawn for
-   that frame, unless some drop left an image on the terminal whose ImageErase was dropped (second
-   component of loop_spec; known class DroppedImageErase). *)
+   that frame: same cells, no protocol error, every placement of S, and no placement besides those of
+   S and the ones the last drop left stale (images whose ImageErase was in a dropped chunk: known
+   class DroppedImageErase; [stale_places], empty unless that happened).  Every delivery of every
+   session is judged, also after a stale drop. *)
 Theorem C01_render_loop : forall o h w its,
   oracle_ok o -> good_iters o h w its ->
-  let out := loop_model o (rnew h w false) 0 its in
-  snd (loop_spec o h w (blank_screen h w) [] (gmake h w cell_default) its out) = false ->
-  fst (loop_spec o h w (blank_screen h w) [] (gmake h w cell_default) its out) = true.
+  fst (loop_spec o h w false (blank_screen h w) [] [] (gmake h w cell_default) its
+                 (loop_model o (rnew h w false) 0 its)) = true.
 Proof.
-  intros o h w its Hok Hgood. cbv zeta.
-  exact (render_loop_correct o h w its (rnew h w false) 0 (blank_screen h w) [] (gmake h w cell_default)
+  intros o h w its Hok Hgood.
+  exact (render_loop_correct o h w its (rnew h w false) 0 (blank_screen h w) [] [] (gmake h w cell_default)
                              Hok (linv_init o h w Hok) Hgood).
+Qed.
+
+(* the plain statement ([strict]: nothing tolerated, every delivered frame [same_display] show(S))
+   holds for every session in which no drop is stale (second component) *)
+Theorem C01_render_loop_exact : forall o h w its,
+  oracle_ok o -> good_iters o h w its ->
+  let out := loop_model o (rnew h w false) 0 its in
+  snd (loop_spec o h w true (blank_screen h w) [] [] (gmake h w cell_default) its out) = false ->
+  fst (loop_spec o h w true (blank_screen h w) [] [] (gmake h w cell_default) its out) = true.
+Proof.
+  intros o h w its Hok Hgood. cbv zeta. intros Hst.
+  rewrite (loop_spec_strict o h w its _ _ _ _ Hst). apply C01_render_loop; auto.
 Qed.
 
 (* known classes OverlapImages / OverlapWideImage: with an image on a cell that another image or a
@@ -205,7 +236,8 @@ Proof. refute. Qed.
 
 (* known class DroppedImageErase: frame 1 places an image and is delivered; frame 2 (which erases it)
    is still pending when frame 3 finds the queue too long: frame 2 is dropped, clear() erases only the
-   images of the back buffer, the image stays on the terminal *)
+   images of the back buffer, the image stays on the terminal: the plain statement fails, the tolerant
+   one (cells right, only that image too many) holds *)
 Definition stale_session : list iter :=
   [mkiter 0 [[img 0%N 0%N; cell_default]] AWait None 1;
    mkiter 1 [[cell_default; cell_default]] AWait None 1;
@@ -213,12 +245,14 @@ Definition stale_session : list iter :=
 
 Theorem C01_dropped_image_erase_refuted :
   oracle_ok overlap_oracle /\ good_iters overlap_oracle 1 2 stale_session
-  /\ loop_spec overlap_oracle 1 2 (blank_screen 1 2) [] (gmake 1 2 cell_default) stale_session
-               (loop_model overlap_oracle (rnew 1 2 false) 0 stale_session) = (false, true).
+  /\ loop_spec overlap_oracle 1 2 true (blank_screen 1 2) [] [] (gmake 1 2 cell_default) stale_session
+               (loop_model overlap_oracle (rnew 1 2 false) 0 stale_session) = (false, true)
+  /\ loop_spec overlap_oracle 1 2 false (blank_screen 1 2) [] [] (gmake 1 2 cell_default) stale_session
+               (loop_model overlap_oracle (rnew 1 2 false) 0 stale_session) = (true, true).
 Proof.
   split; [repeat split|]. split.
   - unfold stale_session, good_iters. repeat constructor; vm_compute; reflexivity.
-  - vm_compute. reflexivity.
+  - split; vm_compute; reflexivity.
 Qed.
 
 (* non-vacuity of C01_render_loop: 34 frames pile up (the tty takes nothing), the 35th iteration finds
@@ -234,7 +268,7 @@ Definition pile_session : list iter :=
 Example C01_render_loop_nonvacuous :
   good_iters overlap_oracle 1 3 pile_session
   /\ existsb fst (loop_model overlap_oracle (rnew 1 3 false) 0 pile_session) = true
-  /\ loop_spec overlap_oracle 1 3 (blank_screen 1 3) [] (gmake 1 3 cell_default) pile_session
+  /\ loop_spec overlap_oracle 1 3 true (blank_screen 1 3) [] [] (gmake 1 3 cell_default) pile_session
                (loop_model overlap_oracle (rnew 1 3 false) 0 pile_session) = (true, false).
 Proof.
   split; [|split; vm_compute; reflexivity].
@@ -378,3 +412,27 @@ Proof.
   split; [ex_gdims|]. split; [vm_compute; reflexivity|]. split; [vm_compute; reflexivity|].
   intros H; vm_compute in H; discriminate.
 Qed.
+
+(* non-vacuity of C01_history_resumes: the witness of OverlapImages (its second frame is wrong and is
+   not judged), then clear() and two more frames, which are judged again: leaving out the commands of
+   the last frame is noticed (4th line); what the terminal still places right after that clear() is
+   tolerated from then on - even if the clear() had erased nothing (5th) - but a placement that
+   appears later is not (6th) *)
+Definition resume_ops : list op :=
+  overlap_images_ops
+  ++ [Clear; Draw [[chr 1%N 97%N; img 0%N 0%N; cell_default]]; Frame;
+      Draw [[chr 1%N 97%N; cell_default; chr 2%N 98%N]]; Frame].
+Definition resume_impl : list (list cmd) := rrun overlap_oracle (rnew 1 3 false) resume_ops.
+
+Example C01_history_resumes_nonvacuous :
+  dom_ops overlap_oracle 1 3 resume_ops
+  /\ spec_run overlap_oracle 1 3 (blank_screen 1 3) (gmake 1 3 cell_default) resume_ops resume_impl = false
+  /\ resume_run overlap_oracle 1 3 (blank_screen 1 3) (gmake 1 3 cell_default) (Some []) resume_ops resume_impl = true
+  /\ resume_run overlap_oracle 1 3 (blank_screen 1 3) (gmake 1 3 cell_default) (Some []) resume_ops
+                (firstn 8 resume_impl ++ [[]]) = false
+  /\ resume_run overlap_oracle 1 3 (blank_screen 1 3) (gmake 1 3 cell_default) (Some []) resume_ops
+                (firstn 4 resume_impl ++ [[]] ++ skipn 5 resume_impl) = true
+  /\ resume_run overlap_oracle 1 3 (blank_screen 1 3) (gmake 1 3 cell_default) (Some []) resume_ops
+                (firstn 4 resume_impl ++ [[]] ++ firstn 1 (skipn 5 resume_impl)
+                 ++ [[CImage 9%N 0 2]] ++ skipn 7 resume_impl) = false.
+Proof. split; [simpl; repeat split; vm_compute; reflexivity|]. repeat split; vm_compute; reflexivity. Qed.
